@@ -223,7 +223,9 @@ func (it *Iterator) Value() []byte {
 
 // Valid returns true if the iterator is positioned at a valid entry
 func (it *Iterator) Valid() bool {
-	return it.currentKey != nil && len(it.currentKey) > 0
+	// The empty key is a legal key (decoded as a non-nil empty slice); only a
+	// nil current key means "not positioned"
+	return it.currentKey != nil
 }
 
 // IsTombstone returns true if the current entry is a deletion marker
